@@ -12,6 +12,8 @@
 """
 from __future__ import annotations
 
+import asyncio
+
 from ..common import B, Ctx
 from ..tlc import MachineryError
 from .. import vloop, acdev, landev
@@ -88,6 +90,8 @@ def scenario(ctx, ver, want, *, extras, cutmode, seed, stale_first, v2_split, ri
     devid = rng.choice([0, 1, 2 ** 48 - 1, rng.getrandbits(48), rng.getrandbits(48)])
     dev = landev.LanDevice(loop, net, ac, version=ver, token=tok, key=key, seed=seed)
     cuts = cutter(rng, cutmode)
+    spread = rng.random() < 0.6
+    busy_until = {}
 
     def respond(tr, packets):
         if ver == 2 and not v2_split:
@@ -98,10 +102,21 @@ def scenario(ctx, ver, want, *, extras, cutmode, seed, stale_first, v2_split, ri
             for c in list(cuts(len(data))) + [len(data)]:
                 segs.append(data[prev:c])
                 prev = c
-        for s in segs:
-            loop.call_soon(tr.feed, s)
+        if len(segs) > 1 and spread:
+            # segments reach the client at distinct (virtual) instants: the client runs in between, as with a real TCP stream
+            t0 = max(loop.time(), busy_until.get(tr.cid, 0.0))        # one in-order byte stream per connection: never overtake earlier bytes
+            for j, s in enumerate(segs):
+                loop.call_at(t0 + 0.0005 * (j + 1), tr.feed, s)
+            busy_until[tr.cid] = t0 + 0.0005 * len(segs)
+        else:
+            t0 = busy_until.get(tr.cid, 0.0)
+            for s in segs:
+                if t0 > loop.time():
+                    loop.call_at(t0, tr.feed, s)
+                else:
+                    loop.call_soon(tr.feed, s)
     dev.respond = respond
-    vec = {"ver": ver, "want": want, "raised": "", "apply_rx": [], "tx": [], "online": False, "extras": [list(extras[0]), list(extras[1])],
+    vec = {"seed": seed, "early_extra": False, "ver": ver, "want": want, "raised": "", "apply_rx": [], "tx": [], "online": False, "extras": [list(extras[0]), list(extras[1])],
            "cutmode": cutmode, "stale_first": stale_first, "v2_split": v2_split, "rich": rich}
 
     async def go():
@@ -126,8 +141,14 @@ def scenario(ctx, ver, want, *, extras, cutmode, seed, stale_first, v2_split, ri
             n0 = len(ac.rx_frames)
             await a.apply()
             vec["apply_rx"] = [B(f) for f in ac.rx_frames[n0:] if acdev.parse_command(f).get("ok") and f[10:11] == b"\x40"]
-            if bool(a.display_on) != want["display"]:
+            await asyncio.sleep(1)        # idle: whatever the appliance still had in flight arrives and is queued
+            toggled = bool(a.display_on) != want["display"]
+            if toggled:
                 await a.toggle_display()
+                await asyncio.sleep(1)
+            # finding D11 applies when a complete extra frame can reach the client at an earlier instant than a solicited reply: extras in front
+            # of the reply, or extras behind the reply of an exchange that is followed at once by another one (toggle + refresh, multi-command refresh)
+            vec["early_extra"] = bool(spread and (len(extras[0]) > 0 or (len(extras[1]) > 0 and (rich or toggled))))
             st = dict(ac.state)
             vec["dev_after"] = {k: (int(st[k]) if k == "freeze" else st[k]) for k in
                                 ("power", "t2", "mode", "fan", "swing", "follow", "turbo", "eco", "purifier", "aux", "sleep", "fahr", "hum", "freeze", "display")}
@@ -136,6 +157,7 @@ def scenario(ctx, ver, want, *, extras, cutmode, seed, stale_first, v2_split, ri
                 await b.authenticate(tok.hex(), key.hex())
             if rich:
                 await b.get_capabilities()      # the refresh below then also queries energy, humidity and properties
+                await asyncio.sleep(1)
             n1 = len(ac.tx_log)
             await b.refresh()
             vec["tx"] = [B(f) for f in ac.tx_log[n1:]]
@@ -246,8 +268,16 @@ def plan(ctx, k, rng):
 
 
 def run(ctx: Ctx) -> int:
-    ctx.mc("AcE2E", "SPECIFICATION ESpec\nCONSTANTS\nClients = {1, 2}\nVals = {10, 20}\nMaxVer = %d\nMaxQ = %d\nPROPERTY Fresh\nINVARIANT NeverInvented\n"
+    ctx.mc("AcE2E", "SPECIFICATION ESpec\nCONSTANTS\nClients = {1, 2}\nVals = {10, 20}\nMaxVer = %d\nMaxQ = %d\nEarlyCompletion = FALSE\nPROPERTY Fresh\nINVARIANT NeverInvented\n"
            "CHECK_DEADLOCK FALSE\n" % ctx.pick((3, 3), (4, 4)), name="C01_mc_e2e", timeout=3000, heap="10g")
+    # design-level witness of known finding D11: with the code's real completion rule (first frame ends the exchange) TLC must find a behaviour
+    # in which a client's copy is older than the state the appliance answered with
+    from ..tlc import run_tlc
+    w = run_tlc("AcE2E", "SPECIFICATION ESpec\nCONSTANTS\nClients = {1}\nVals = {10, 20}\nMaxVer = 2\nMaxQ = 3\nEarlyCompletion = TRUE\nPROPERTY Fresh\nCHECK_DEADLOCK FALSE\n",
+                name="C01_mc_e2e_early", workers=4, timeout=600)
+    if "Fresh" not in w.violated:
+        raise MachineryError("AcE2E with EarlyCompletion did not reproduce the design-level witness of finding D11")
+    ctx.extra["design_level_witness_of_D11"] = {"found": True, "trace_states": len(w.error_states)}
     ctx.mc("MC_C10", "INIT Init\nNEXT Next\nINVARIANT RoundTrip\nINVARIANT Shape\nINVARIANT DeviceAccepts\n", name="C01_mc_codec")
     ctx.mc("MC_V2Stream", "INIT MCInit\nNEXT Next\nINVARIANT Delivered\nINVARIANT NoLoss\nINVARIANT AllDeliveredAtEnd\nCHECK_DEADLOCK FALSE\nCONSTANT MaxPackets = %d\n" % ctx.pick(3, 4),
            name="C01_mc_v2stream", timeout=3000, heap="8g")
@@ -271,11 +301,13 @@ def run(ctx: Ctx) -> int:
         ctx.count_distinct((p["ver"], p["extras"], p["cutmode"], p["stale_first"], tuple(sorted(w.items()))))
     # V2 segmentation (DESIGN D7): replies split across segments and coalesced with extra frames
     v2seg = []
-    for k in range(ctx.pick(120, 3000)):
+    for k in range(ctx.pick(200, 3000)):
         w = rand_state(ctx.rng)
         w["display"] = ctx.rng.random() < 0.5
         p = plan(ctx, 0, ctx.rng)
-        p.update(ver=2, cutmode=ctx.rng.choice(["one", "few", "bytewise", "none"]), v2_split=True)
+        p.update(ver=2, cutmode=ctx.rng.choice(["one", "few", "bytewise", "none"]), v2_split=True, rich=False)
+        if k % 2 == 0:        # a reply followed by further frames, cut anywhere: the reply is complete while a later frame is still partial
+            p["extras"] = ((), tuple(ctx.rng.choice(EXTRAS[:4]) for _ in range(ctx.rng.randint(1, 2))))
         v2seg.append(scenario(ctx, want=w, seed=ctx.seed * 7919 + k, **p))
     # canaries
     import copy
@@ -299,7 +331,7 @@ def run(ctx: Ctx) -> int:
             raise MachineryError(f"Trace_C01: {clause} (vector {i})")
         ctx.violation(f"V{v['ver']} extras={v['extras']} cuts={v['cutmode']} stale_first={v['stale_first']} v2_split={v['v2_split']}", clause,
                       {"ver": v["ver"], "want": v["want"], "extras": v["extras"], "cutmode": v["cutmode"], "stale_first": v["stale_first"], "v2_split": v["v2_split"],
-                       "clause": clause, "seed_index": i, "rich": v.get("rich", False), "v2_no_reassembly": bool(v["ver"] == 2 and v["v2_split"])})
+                       "clause": clause, "seed_index": i, "scenario_seed": v.get("seed", 0), "rich": v.get("rich", False), "early_extra": v.get("early_extra", False), "v2_no_reassembly": bool(v["ver"] == 2 and v["v2_split"])})
     ctx.sample({"ver": vectors[0]["ver"], "want": vectors[0]["want"], "extras": vectors[0]["extras"], "frame_0x40": bytes(vectors[0]["apply_rx"][0]).hex() if vectors[0]["apply_rx"] else ""})
     return ctx.finish(
         rule="every value of every settable field (others seeded-random), setpoints x modes, random states, display via toggle; V2 and V3 alternating; "
@@ -315,7 +347,7 @@ def replay(ctx: Ctx, path: str) -> int:
     if c.get("v2stream"):
         ctx.notes.append("V2 stream cases are re-run by the full check (v2_stream_traces); this replay only re-validates the recorded stream")
         return ctx.finish(rule="replay of one recorded V2 stream case (see note)")
-    v = scenario(ctx, c["ver"], c["want"], extras=(tuple(c["extras"][0]), tuple(c["extras"][1])), cutmode=c["cutmode"], seed=ctx.seed,
+    v = scenario(ctx, c["ver"], c["want"], extras=(tuple(c["extras"][0]), tuple(c["extras"][1])), cutmode=c["cutmode"], seed=c.get("scenario_seed", ctx.seed),
                  stale_first=c["stale_first"], v2_split=c["v2_split"], rich=c.get("rich", False))
     for i, clause in ctx.validate_vectors("Trace_C01", [v]):
         ctx.violation("replayed scenario", clause, c)
